@@ -69,6 +69,7 @@ type FuncContract struct {
 	Trusted      bool     // contract is assumed, body not verified
 	Inline       bool
 	NoFrame      bool // "modifies *": no frame obligation
+	ModCallbacks bool // "modifies callbacks": effect = effects of the function values passed in
 	Lemmas       []*Lemma
 	HasMods      bool
 	Uses         []string
@@ -318,6 +319,10 @@ func ParseContractFile(path, pkg string) (*ContractFile, error) {
 					cur.HasMods = true
 					if text == "*" {
 						cur.NoFrame = true
+					} else if text == "callbacks" {
+						// the function's own effect is nothing; it may call the function values it is handed, so at a
+						// call site its effect is the union of the modifies clauses of those (statically known) values
+						cur.ModCallbacks = true
 					} else if text != "nothing" {
 						for _, part := range splitTop(text, ',') {
 							e, err := ParseExpr(strings.ReplaceAll(part, "[*]", "[$all]"))
